@@ -64,6 +64,17 @@ Theorem C14_connection : forall o host port rs x, wf_endpoint host port = true -
 Proof. exact parse_many_builds. Qed.
 Print Assumptions C14_connection.
 
+(* the WSGI environ (REQUEST_METHOD, PATH_INFO, QUERY_STRING, CONTENT_TYPE, CONTENT_LENGTH,
+   wsgi.input, the HTTP_* set) the application gets for the k-th request of a keep-alive
+   connection is build_environ of the k-th request alone: it does not depend on the
+   connection's history *)
+Theorem C14_environ_independent : forall o host port rs x, wf_endpoint host port = true ->
+  forallb wf_request rs = true ->
+  serve_many o (List.length rs) (flat_map (build host port) rs ++ x)
+  = map (fun r => Ok (build_environ (parsed_of host port r))) rs.
+Proof. exact serve_many_builds. Qed.
+Print Assumptions C14_environ_independent.
+
 (* the layers of the proof that are of independent interest *)
 Theorem C14_utf8_roundtrip : forall s, text_ok s = true -> utf8_dec (utf8_enc s) = s.
 Proof. exact utf8_dec_enc. Qed.
